@@ -684,7 +684,14 @@ def execute(case, mon):
 def _make_ds(cx, model=None, **kw):
     model = model or cx.model
     data = cx.data
-    params = data.SpectDataParams(subset_ids=list(model.get("subset") or []), sos=kw.pop("sos", None), eos=kw.pop("eos", None))
+    sos, eos = kw.pop("sos", None), kw.pop("eos", None)
+    if (sos is not None or eos is not None) and ((sos or 0) + (eos or 0)) % 3 == 1:
+        # the symbols through the data set's own (deprecated, still supported) keywords instead of the parameter object
+        params = data.SpectDataParams(subset_ids=list(model.get("subset") or []))
+        kw.update(sos=sos, eos=eos)
+        cx.mon.stat("sos_eos_by_deprecated_keywords")
+    else:
+        params = data.SpectDataParams(subset_ids=list(model.get("subset") or []), sos=sos, eos=eos)
     kw.setdefault("suppress_alis", False)
     kw.setdefault("tokens_only", False)
     return data.SpectDataSet(
